@@ -273,7 +273,7 @@ prop('C14',
      technique=TECH,
      units=['verus:handler_ops'],
      obligations=['handler.options.*', 'handler.serve.*', 'handler.stamp.*', 'handler_ops.Handler::configure_read_options.body',
-                  'handler_ops.serve_loop.body', 'handler_ops.stamp_loop.body'],
+                  'handler_ops.serve_loop.body', 'handler_ops.stamp_loop.body', 'handler.process_frame.one_evaluation'],
      trusted=['extraction', 'sequential', 'scru128'],
      extra_assumptions=['serde_json::Value accessors (get / as_str / as_object_mut) behave as a map / string model; Display of an id is injective'],
      explanation='configure_read_options whole function; the serve loop with format!() results opaque and json! payloads elided.',
@@ -286,7 +286,7 @@ prop('C15',
            'topic/hash/ttl, and there is exactly one append per buffered frame, in buffer order (return frame last).',
      technique=TECH,
      units=['verus:handler_ops'],
-     obligations=['handler.stamp.*', 'handler_ops.stamp_loop.body'],
+     obligations=['handler.stamp.*', 'handler_ops.stamp_loop.body', 'handler.process_frame.*', 'handler_ops.process_frame_whole.body'],
      trusted=['extraction', 'sequential', 'scru128'],
      extra_assumptions=['serde_json::Value / Map model (object = map, insert overwrites); buffered metas are absent or objects (nu Record)'],
      explanation='The loop is extracted verbatim and verified with a loop invariant over the ghost list of appended frames.',
